@@ -62,5 +62,8 @@ IsPrefixOf(p, s) == Len(p) <= Len(s) /\ Take(s, Len(p)) = p
 Max(a, b) == IF a > b THEN a ELSE b
 Min(a, b) == IF a < b THEN a ELSE b
 
-SeqOfSet(S) == CHOOSE f \in [1..Cardinality(S) -> S] : \A i, j \in 1..Cardinality(S) : i # j => f[i] # f[j]
+\* ascending sequence of a finite set of integers
+RECURSIVE SeqOfSet(_)
+SeqOfSet(S) == IF S = {} THEN << >>
+               ELSE LET m == CHOOSE x \in S : \A y \in S : x <= y IN << m >> \o SeqOfSet(S \ {m})
 =============================================================================
